@@ -673,12 +673,13 @@ func (c *genCtx) trap(depth int, nn bool) *Expr {
 		var pre *Expr
 		switch c.draw(0, 2, "swallowkind") {
 		case 0:
-			pre = Look(true, deep)
+			// (Look's first argument is "negative")
+			pre = Look(false, deep) // (?= ( ... )? ): matches whatever the group does with its failure
 			if deep.Mod == "+" {
-				pre = Look(false, deep)
+				pre = Look(true, deep) // (?! ( ... )+ ): succeeds because the group fails
 			}
 		case 1:
-			pre = Look(false, Seq(deep, Lit("+")))
+			pre = Look(true, Seq(deep, Lit("+")))
 		default:
 			pre = Cap(Not(Seq(deep, Lit("+"))))
 		}
@@ -778,10 +779,12 @@ func (c *genCtx) trap(depth int, nn bool) *Expr {
 			pi := len(c.g.Prods) - 1
 			return Alt(Seq(el, SubP(pi)), SubP(pi))
 		}
-		if c.draw(0, 3, "elidedlook") == 0 {
+		if c.draw(0, 1, "elidedlook") == 0 {
 			// inside one capture a lookahead only looks at an elided token the grammar names; what is captured is
 			// what is consumed after it: @( (?= Comment) y )
-			return Cap(Seq(Look(true, el), c.leaf()))
+			cp := Cap(Seq(Look(false, el), c.leaf()))
+			cp.T = "tok"
+			return cp
 		}
 		x := c.leaf()
 		y := c.otherLiteral(x)
@@ -822,9 +825,9 @@ func (c *genCtx) trap(depth int, nn bool) *Expr {
 		// three alternatives: the failing one in the middle
 		return Alt(Seq(c.otherLiteral(Lit("\x00")), Lit(";")), bad, base)
 	case 4:
-		return Seq(Look(true, clone(base)), base) // positive lookahead that matches: its captures are discarded
+		return Seq(Look(false, clone(base)), base) // positive lookahead that matches: its captures are discarded
 	case 5:
-		return Seq(Look(false, bad), base) // negative lookahead whose body fails part-way
+		return Seq(Look(true, bad), base) // negative lookahead whose body fails part-way
 	default:
 		// ~( bad ) consumes one token when bad does not match; continue with the rest of base
 		rest := clone(base)
@@ -858,6 +861,9 @@ func assignFields(t *rapid.T, p *Prod, e *Expr, pi int) {
 				kinds = []FKind{FInt, FInt, FInts, FInts, FInt8, FStr, FStrs, FToks}
 			} else if rapid.IntRange(0, 19).Draw(t, "numAnyway") == 0 {
 				kinds = []FKind{FInt, FInts} // conversion error path
+			}
+			if e.T == "tok" {
+				kinds = []FKind{FTok, FToks, FTok} // the shape is about which tokens the capture covers
 			}
 			k := rapid.SampledFrom(kinds).Draw(t, "fk")
 			n := len(p.Fields)
